@@ -1,7 +1,9 @@
 """Translator: qcelemental/models/align.py::AlignmentMill.align_*  ->  coq/Gen/MillGen.v (property C13).
 
 The bodies of align_coordinates, align_atoms, align_vector, align_gradient, align_hessian and the per-atom
-block of align_vector_gradient are short straight-line numpy code.  Each is turned into a Gallina let-chain over
+block of align_vector_gradient are short straight-line numpy code; the atom loop of align_vector_gradient (index read,
+three slice reads, rotation, three slice stores into the zero-initialised result) is emitted over the loop / store
+combinators of Model/MillLoop.v (gen_align_vector_gradient).  Each is turned into a Gallina let-chain over
 the array combinators of Model/MillOps.v / Model/Mill.v.  Every variable carries a kind ((n,3) array, 3-vector,
 3x3 matrix, blocked (n,n,3,3) array, ...) and `X.dot(Y)` / `np.dot(X, Y)` / `X[...]` are translated according
 to the kinds of their operands, so a swapped operand, a dropped transpose, a mirror flip applied at another
@@ -299,8 +301,26 @@ def _vector_gradient(fn):
         err("the atom loop does not rotate Datom and store its three rows")
     if [outs[c] for c in range(3)] != [0, 1, 2]:
         err("al_mu row c is not filled from Datom row c")
-    return ("  let '(mx, my, mz) := mu in\n"
-            "  let D := (slice3 %s p, slice3 %s p, slice3 %s p) in\n  %s" % (rows[0], rows[1], rows[2], rot))
+    datom = ("  let '(mx, my, mz) := mu in\n"
+             "  let D := (slice3 %s p, slice3 %s p, slice3 %s p) in\n  %s" % (rows[0], rows[1], rows[2], rot))
+    # the whole method, statement by statement, over the loop / slice-store combinators of Model/MillLoop.v:
+    #   mu_x, mu_y, mu_z = mu_derivatives ; nat = mu_x.shape[0] // 3 ; al_mu = np.zeros((3, 3 * nat))
+    #   (Datom = np.zeros((3, 3)) and Datom.fill(0): every row of Datom is assigned before it is read - checked above)
+    #   for at in range(nat): the row reads in statement order (self.atommap[at]: IndexError; a short slice: ValueError),
+    #   the two-sided rotation, the three slice stores into al_mu ; return al_mu
+    reads = "".join("    obind (slice3o %s p) (fun d%d =>\n" % (rows[r], r) for r in rows)          # insertion order = statement order
+    stores = ", ".join("store3 a%d at' (mrow D %d)" % (c, outs[c]) for c in range(3))
+    loop = ("  let '(mx, my, mz) := mu in\n"
+            "  let nat_ := (Nat.div (length mx) 3%%nat) in\n"
+            "  let al_mu := (zeros (3 * nat_), zeros (3 * nat_), zeros (3 * nat_)) in\n"
+            "  for_range nat_ (fun at' al_mu =>\n"
+            "    obind (amap_at m at') (fun p =>\n"
+            "%s"
+            "    let D := (d0, d1, d2) in\n"
+            "    let D := %s in\n"
+            "    let '(a0, a1, a2) := al_mu in\n"
+            "    Ok (%s)))))) al_mu" % (reads, rot, stores))
+    return datom, loop
 
 
 def generate(repo):
@@ -333,12 +353,14 @@ def generate(repo):
     simple("align_hessian", ["hess"], {"hess": ("hess", "hess")}, "ohess",
            "Definition gen_align_hessian (m : mill K) (n : nat) (hess : list K) : outcome (list K)")
     vg = _vector_gradient(_method(cls, "align_vector_gradient", ["mu_derivatives"]))
-    defs.append("Definition gen_datom (m : mill K) (mu : list K * list K * list K) (p : nat) : mat3 K :=\n" + vg + ".")
+    defs.append("Definition gen_datom (m : mill K) (mu : list K * list K * list K) (p : nat) : mat3 K :=\n" + vg[0] + ".")
+    defs.append("Definition gen_align_vector_gradient (m : mill K) (mu : list K * list K * list K) : outcome (list K * list K * list K) :=\n"
+                + vg[1] + ".")
     text = (
         "(* GENERATED by harness/translate/millgen.py from qcelemental/models/align.py::AlignmentMill - do not edit.\n"
         "   n is the number of atoms of the Hessian (hess.shape[0] // 3 = blocked_hess.shape[0]). *)\n"
         "From Coq Require Import List.\n"
-        "Require Import QV.Common.Outcome QV.Common.AlignAlg QV.Model.Mill QV.Model.MillOps.\n"
+        "Require Import QV.Common.Outcome QV.Common.AlignAlg QV.Model.Mill QV.Model.MillOps QV.Model.MillLoop.\n"
         "Section Gen.\nContext {K : Type} {KO : Ops K}.\nLocal Open Scope K_scope.\n"
         + "\n".join(defs) + "\nEnd Gen.\n")
     coqrun.write_if_changed(os.path.join(coqrun.COQ, "Gen", "MillGen.v"), text)
